@@ -1,6 +1,7 @@
 import Rare.Proofs.C18Cal
 import Rare.Proofs.C18Layout
 import Rare.Proofs.C18Dur
+import Rare.Proofs.C18RT
 import Rare.Gen.C18
 /-!
 # C18 – Time helpers agree with the calendar and round-trip
@@ -158,6 +159,85 @@ theorem isoweek_thursday (d : Int) :
       unfold thursdayOf weekday at *; omega
     simp only [isoYearWeek, this]
 
+/-! ## Format / parse round trip -/
+
+/-- For the model formatter/parser: for every layout of the round-trip class `RT` (see
+`Rare/Proofs/C18RT.lean`: fixed-width or safely delimited tokens) that holds year, month, day, hour,
+minute and a numeric zone, every valid civil date-time with whole seconds, every weekday label and
+every whole-minute offset up to ±24:59 – parsing what was formatted gives the date-time truncated to
+the precision of the layout, and the instant `wall clock − offset`, whatever the location argument
+is.  A two-digit year carries the year only within Go's pivot window 1969..2068.
+
+Full statement wanted: the same for EVERY layout with those fields.  That is false for Go's
+layouts (e.g. `1` month directly followed by `2` day prints `112` for both 1/12 and 11/2; `05.02`
+makes the parser read the day as a fraction of the second), hence the class. -/
+theorem format_parse_roundtrip (layout : Bytes) (hRT : RT (tokenize layout) = true)
+    (hI : holdsInstant (tokenize layout) = true) (t : TimeV) (hv : t.dt.valid) (hns : t.dt.ns = 0)
+    (hwd : 0 ≤ t.wd ∧ t.wd ≤ 6) (hoff : OffOK t.off)
+    (hy2 : .std .year ∈ tokenize layout → 1969 ≤ t.dt.y ∧ t.dt.y ≤ 2068) :
+    ∃ p, parseLayout layout (formatLayout layout t) = .ok p
+      ∧ p.dt = truncTo (precOf (tokenize layout)) t.dt
+      ∧ ∀ locOff locAbbr, instantOf p locOff locAbbr = some (wallSeconds (truncTo (precOf (tokenize layout)) t.dt) - t.off) :=
+  roundtrip_core (tokenize layout) hRT hI t ⟨hv, hns, hwd, hoff, hy2⟩
+
+/-- Every named format that holds date, time and numeric offset is in the round-trip class; only
+`RFC822Z` has a two-digit year. -/
+theorem named_formats_in_class :
+    (Gen.C18.timeFormats.filter (fun e => holdsInstant (tokenize (asc e.2)))).all
+        (fun e => RT (tokenize (asc e.2))) = true
+    ∧ (Gen.C18.timeFormats.filter (fun e => (tokenize (asc e.2)).contains (.std .year))).map (·.1) = ["RFC822", "RFC822Z"] := by
+  decide
+
+/-- The wall clock of an instant denotes that instant again. -/
+theorem wall_of_instant (unix off : Int) : wallSeconds (civilOf unix off) - off = unix := by
+  have h := civil_roundtrip' (localDays unix off)
+  unfold wallSeconds civilOf
+  simp only
+  rw [h]
+  unfold localDays localSecs
+  omega
+
+/-- `{time {timeformat u F Z} F Z}` for a named format `F` holding an instant: the result is `u`
+for the formats carrying seconds and `u` minus the seconds of the local minute for `RFC822Z`
+(stated for the resolved layout, any zone offset of whole minutes, four-digit years). -/
+theorem time_timeformat_roundtrip (e : String × String) (he : e ∈ Gen.C18.timeFormats)
+    (hI : holdsInstant (tokenize (asc e.2)) = true) (unix off : Int) (abbr : Bytes) (hoff : OffOK off)
+    (hy : 0 ≤ (civilOf unix off).y ∧ (civilOf unix off).y ≤ 9999)
+    (hy2 : e.1 = "RFC822Z" → 1969 ≤ (civilOf unix off).y ∧ (civilOf unix off).y ≤ 2068) :
+    ∃ p, parseLayout (asc e.2) (formatLayout (asc e.2) (timeVOf unix off abbr)) = .ok p
+      ∧ ∀ locOff locAbbr, instantOf p locOff locAbbr =
+          some (if e.1 = "RFC822Z" then unix - (unix + off) % 60 else unix) := by
+  have hmem : e ∈ Gen.C18.timeFormats.filter (fun e => holdsInstant (tokenize (asc e.2))) := List.mem_filter.mpr ⟨he, hI⟩
+  have hRT : RT (tokenize (asc e.2)) = true := (List.all_eq_true.mp named_formats_in_class.1) e hmem
+  have hprec : precOf (tokenize (asc e.2)) = (if e.1 = "RFC822Z" then Prec.minute else if e.1 = "RFC3339N" then .nano else .second)
+      ∧ ((tokenize (asc e.2)).contains (.std .year) = true → e.1 = "RFC822Z") := by
+    have hall : ∀ e ∈ Gen.C18.timeFormats.filter (fun e => holdsInstant (tokenize (asc e.2))),
+        precOf (tokenize (asc e.2)) = (if e.1 = "RFC822Z" then Prec.minute else if e.1 = "RFC3339N" then .nano else .second)
+        ∧ ((tokenize (asc e.2)).contains (.std .year) = true → e.1 = "RFC822Z") := by decide
+    exact hall e hmem
+  have hs : 0 ≤ localSecs unix off ∧ localSecs unix off < 86400 := by unfold localSecs; omega
+  have hc := civil_month_day (localDays unix off)
+  have hvalid : (timeVOf unix off abbr).dt.valid := by
+    simp only [timeVOf, civilOf, DateTime.valid] at hy ⊢
+    refine ⟨hy.1, hy.2, hc.1, hc.2.1, hc.2.2.1, hc.2.2.2, ?_, ?_, ?_, ?_, ?_, ?_, by omega, by omega⟩ <;> omega
+  obtain ⟨p, hp, hdt, hinst⟩ := format_parse_roundtrip (asc e.2) hRT hI (timeVOf unix off abbr) hvalid rfl
+    (weekday_range' _) hoff (fun hm => hy2 (hprec.2 (List.contains_iff_mem.mpr hm)))
+  refine ⟨p, hp, fun lo la => ?_⟩
+  rw [hinst lo la, hprec.1]
+  have hw := wall_of_instant unix off
+  by_cases h1 : e.1 = "RFC822Z"
+  · simp only [h1, if_true]
+    simp only [wallSeconds, truncTo, timeVOf, civilOf, localSecs] at hw ⊢
+    congr 1; omega
+  · simp only [h1, if_false]
+    by_cases h2 : e.1 = "RFC3339N"
+    · simp only [h2, if_true, truncTo]
+      show some (wallSeconds (civilOf unix off) - off) = some unix
+      rw [hw]
+    · simp only [h2, if_false]
+      simp only [wallSeconds, truncTo, timeVOf, civilOf, localSecs] at hw ⊢
+      congr 1
+
 /-! ## Durations -/
 
 /-- `{duration {durationformat n}} = n` for every whole number of seconds whose nanosecond count
@@ -232,5 +312,27 @@ theorem mode_dispatch :
     ∧ modeOf timeFormats (asc "nginx") = .explicit (asc "_2/Jan/2006:15:04:05 -0700")
     ∧ modeOf timeFormats (asc "2006") = .explicit (asc "2006") := by
   decide
+
+/-! ## Non-vacuity: the hypotheses hold on concrete, non-trivial values -/
+
+/-- 14 Apr 2016 19:12:25 +02:00 (the repo's own test instant) round-trips through NGINX. -/
+example : parseLayout (asc "_2/Jan/2006:15:04:05 -0700")
+    (formatLayout (asc "_2/Jan/2006:15:04:05 -0700") (timeVOf 1460653945 7200 (asc "CEST")))
+      = .ok ⟨⟨2016, 4, 14, 19, 12, 25, 0⟩, .offset 7200⟩ := by rfl
+
+example : formatLayout (asc "_2/Jan/2006:15:04:05 -0700") (timeVOf 1460653945 7200 (asc "CEST"))
+    = asc "14/Apr/2016:19:12:25 +0200" := by decide +kernel
+
+example : OffOK 7200 ∧ OffOK (-12600) ∧ (timeVOf 1460653945 7200 (asc "CEST")).dt.valid := by
+  refine ⟨by unfold OffOK; decide, by unfold OffOK; decide, by unfold DateTime.valid; decide +kernel⟩
+
+example : quarter 3 = 1 ∧ quarter 12 = 4 ∧ Gen.C18.quarter 3 = 1 ∧ Gen.C18.quarter 12 = 4 := by decide
+
+/-- 1 Jan 2021 is a Friday of ISO week 2020-53; 4 Jan 2021 starts 2021-1. -/
+example : weekday 18628 = 5 ∧ isoYearWeek 18628 = (2020, 53) ∧ isoYearWeek 18631 = (2021, 1)
+    ∧ civilFromDays 18628 = ⟨2021, 1, 1⟩ := by decide +kernel
+
+example : durationFormat (asc "14400") = .val (asc "4h0m0s") ∧ duration (asc "4h0m0s") = .val (asc "14400") := by
+  decide +kernel
 
 end Rare.C18
